@@ -77,6 +77,24 @@ def virtual_first(rng, raw, acc):
     t = rng.choice(cands)
     return (t, rng.choice(['VIRT', t.upper(), '', t + 'x']), rng.choice([None, 'c']), None)
 
+def cross_para(rng, raw):
+    """a target running over the end of one paragraph into the next one (one separator, no markup); the new text joins, replaces or
+    deletes the two pieces, or is block text - with a heading line of the level of the paragraph the target starts in"""
+    seps = [m.start() for m in re.finditer(r'\n\n', raw)]
+    rng.shuffle(seps)
+    for p in seps[:8]:
+        a = max(0, p - rng.randint(1, 9)); b = min(len(raw), p + 2 + rng.randint(1, 9))
+        t = raw[a:b]
+        if any(ch in t for ch in '{}|') or t.count('\n') != 2: continue
+        left, right = t.split('\n\n')
+        if not left.strip() or not right.strip(): continue
+        ls = raw.rfind('\n', 0, a) + 1; m = re.match(r'(#+) ', raw[ls:])
+        hd = (m.group(1) if m else '#') + ' '
+        new = rng.choice(['X', '', left + ' ' + right, left.upper() + '\n\n' + right, hd + 'New Title\n\nNew body', hd + 'Only', '## Sub\nmore',
+                          left + '\n\nmid\n\n' + right, 'plain **bold** join'])
+        return (t, new, rng.choice([None, 'cross']), None)
+    return None
+
 def gen_batch(rng, din, raw, clean, kind='exact'):
     """returns list of (target, new, comment, index)"""
     acc = [t for t in para_texts(din, 'acc') if len(t.strip()) > 1]
@@ -111,8 +129,10 @@ def gen_batch(rng, din, raw, clean, kind='exact'):
                     if rng.random() < .5: pair.reverse()
                     edits = pair
         if acc and raw and rng.random() < .2: edits.append(virtual_first(rng, raw, acc))
+        if raw and rng.random() < .15: edits.append(cross_para(rng, raw))
     elif kind == 'mixed':
         if acc and raw and rng.random() < .15: edits.append(virtual_first(rng, raw, acc))
+        if raw and rng.random() < .12: edits.append(cross_para(rng, raw))
         for _ in range(rng.randint(1, 4)):
             x = rng.random()
             if x < .5 and acc:
@@ -140,6 +160,9 @@ def gen_batch(rng, din, raw, clean, kind='exact'):
                     m = rng.choice(ms); a = max(0, m.start() - rng.randint(1, 6)); t = raw[a:m.end() + rng.randint(1, 6)]
                     if '\n' not in t: edits.append((t, rng.choice(['straddle', '']), None, None))
             if rng.random() < .06: edits.append((rng.choice(['# ', '## ', '#', '###  ']), 'marker-only target', rng.choice([None, 'c']), None))   # nothing to look for
+            if acc and rng.random() < .12:                                                               # plain text quoted with Markdown markers it does not carry (the Markdown-stripped matcher stage)
+                t = pick_target(rng, rng.choice(acc))
+                if t and re.fullmatch(r'\w[\w ]*\w', t): edits.append((rng.choice(['**%s**', '_%s_', '__%s__', '# %s', '*%s*']) % t, rng.choice(['MD ' + t, '**%s** more' % t, '']), rng.choice([None, 'c']), None))
             if rng.random() < .1 and raw:                                                                # target taken from the raw view (may include markup)
                 a = rng.randrange(len(raw)); t = raw[a:a + rng.randint(2, 12)]
                 if '\n' not in t: edits.append((t, 'rawrepl', None, None))
@@ -154,6 +177,7 @@ def gen_batch(rng, din, raw, clean, kind='exact'):
                 if ws: w = rng.choice(ws); edits.append((w.group(0), 'IDX', rng.choice([None, 'c']), w.start()))
         rng.shuffle(edits)
     elif kind == 'blocks':
+        if raw and rng.random() < .2: edits.append(cross_para(rng, raw))
         for _ in range(rng.randint(1, 2)):
             if not acc: break
             t = pick_target(rng, rng.choice(acc))
@@ -181,10 +205,10 @@ def run_cases(cases):
     for (d, e), b, din, r, m in zip(cases, blobs, dins, res, mo):
         model = None
         if '|' in m:
-            cnt, md = m.split('|', 1); ap, sk, o, nn = map(int, cnt.split())
+            cnt, md = m.split('|', 1); ap, sk, o, nn, xp = map(int, cnt.split())
             model = (ap, sk, o, A.un_doc(A.sx_parse(md)))
         else: model = ('ERR', m)
-        out.append({'d': d, 'b': b, 'din': din, 'edits': e, 'r': r, 'model': model, 'nn': nn if '|' in m else 0})      # nn: nested-insertion replacements in the model's run
+        out.append({'d': d, 'b': b, 'din': din, 'edits': e, 'r': r, 'model': model, 'nn': nn if '|' in m else 0, 'xp': xp if '|' in m else 0})      # nn: nested-insertion replacements in the model's run
     return out
 
 def correspondence(ck, c):
@@ -195,6 +219,8 @@ def correspondence(ck, c):
     if r['err']: return 'impl_error'
     if 'CONTRACT' in r['oracle']:
         ck.corr_broken.append(('matcher contract: find_match_index returned an out-of-range result', case)); return 'broken'
+    if 'CONTRACT2' in r['oracle']:
+        ck.violation('oracle', case, 'an approximate matcher stage answered with a range whose text is not the target (up to Markdown markers, quote style and whitespace): the edit is applied to other text than the one it names'); return 'broken'
     if m[0] == 'ERR':
         ck.corr_broken.append(('model driver failed: ' + str(m[1])[:200], case)); return 'broken'
     ap, sk, outside, md = m
@@ -461,6 +487,15 @@ def oracle_C16_block(c, dout, new):
         cands = [(p, tx) for p, tx in zip(newp, texts) if p['style'] == ['H', k]]
         if not any(want == tx or (i == len(lines) - 1 and tx and want.startswith(tx)) for p, tx in cands):
             return 'the line %r did not become a heading paragraph of level %d with its text (heading paragraphs: %r)' % (l, k, [tx for p, tx in cands])
+    m = re.match(r'(#+) (.*)$', lines[0])
+    tgt = next((e[0] for e in c['edits'] if e[1] == new), '')
+    if m and len(m.group(1)) <= 9 and literal(m.group(2).strip()) and len(lines) > 1 and tgt[:1] != new[:1]:
+        # (context trimming cannot have shortened this first line: the target does not begin like it, and the common suffix lies in
+        # a later line.)  The line may stay in the current paragraph - when that paragraph has the heading style asked for; either
+        # way, once accepted, its text stands in a heading paragraph of that level
+        want = literal(m.group(2).strip()); k = len(m.group(1))
+        if not any(p['style'] == ['H', k] and want in tx for p, tx in zip(A.paras(dout), para_texts(dout, 'acc'))):
+            return 'the heading line %r does not stand in a heading paragraph of level %d once the change is accepted' % (lines[0], k)
     for i, l in enumerate(lines):
         if i == 0 or i == len(lines) - 1: continue          # first / last line may be shortened by context trimming
         for m in re.finditer(r"\*\*(?=[^\s*])(.*?[^\s*])?\*\*", l):
